@@ -84,6 +84,98 @@ Theorem sticky_stale_resolution_is_noop :
     forall x, In x (snd (step hash m now (IResolved id bid a))) -> fst x = None.
 Proof. exact stale_resolution_noop. Qed.
 
+(** 2. [sticky], over whole traces.  [allouts tr] is the output stream of the
+    history; the label [Some i] names the incarnation (one admitted flow, from
+    its FlowCreated to its CloseFlow) an output was emitted for. *)
+Theorem sticky :
+  forall hash c max_flows max_rx h i d1 p1 d2 p2,
+    let tr := snd (run hash (mgr_new c max_flows max_rx) h) in
+    In (Some i, SendToBackend d1 p1) (allouts tr) ->
+    In (Some i, SendToBackend d2 p2) (allouts tr) -> d1 = d2.
+Proof. intros. eapply ti_sticky; [apply run_TI_init|eassumption|eassumption]. Qed.
+
+(** ... and that one destination is the address of the resolution that established
+    the flow: an upstream is opened only by a [BackendResolved], towards its address,
+    and everything the incarnation forwards goes there. *)
+Theorem sticky_destination_is_the_resolved_address :
+  forall hash c max_flows max_rx h,
+    let tr := snd (run hash (mgr_new c max_flows max_rx) h) in
+    (forall e i id a, In e tr -> In (Some i, OpenUpstream id a) (ev_out e) ->
+       exists bid, ev_in e = IResolved id bid a) /\
+    (forall i id a d p, In (Some i, OpenUpstream id a) (allouts tr) ->
+       In (Some i, SendToBackend d p) (allouts tr) -> d = a).
+Proof.
+  intros. pose proof (run_TI_init hash c max_flows max_rx h) as T. split.
+  - apply (ti_open_res _ _ T).
+  - apply (ti_open_tob _ _ T).
+Qed.
+
+(** 3. [isolated], replies: a datagram is sent to a client only while handling a
+    backend datagram, carries exactly that datagram's payload, and goes to the
+    source of the client datagram that created the incarnation (which is unique). *)
+Theorem isolated_replies_return_to_the_creating_client :
+  forall hash c max_flows max_rx h e i d p,
+    let tr := snd (run hash (mgr_new c max_flows max_rx) h) in
+    In e tr -> In (Some i, SendToClient d p) (ev_out e) ->
+    (exists id, ev_in e = IBackend id p) /\
+    (exists e0 p0, In e0 tr /\ ev_in e0 = IClient d p0 /\ In (Some i, Metric MCreated) (ev_out e0)) /\
+    (forall e1, In e1 tr -> In (Some i, Metric MCreated) (ev_out e1) -> exists p1, ev_in e1 = IClient d p1).
+Proof.
+  intros hash c mf mrx h e i d p tr He Hin.
+  pose proof (run_TI_init hash c mf mrx h) as T.
+  destruct (ti_iso _ _ T _ _ _ _ He Hin) as (H1 & e0 & p0 & H0 & H2 & H3).
+  split; [exact H1|]. split; [eauto|].
+  intros e1 He1 Hc1. destruct (ti_creator_unique _ _ T _ _ _ H0 He1 H3 Hc1) as (src & q1 & q2 & E1 & E2).
+  rewrite H2 in E1. inversion E1; subst. eauto.
+Qed.
+
+(** [isolated], forwarding: one step sends at most one datagram to a backend, and it
+    is exactly (an optional PROXY v2 header followed by) the client datagram being
+    handled, or the datagram buffered for the flow being resolved. *)
+Theorem isolated_forward_is_exact :
+  forall hash m now inp i d q, Inv m ->
+    In (Some i, SendToBackend d q) (snd (step hash m now inp)) ->
+    (exists hdr, is_pp_header hdr d /\
+       ((exists src p, inp = IClient src p /\ q = hdr ++ p) \/
+        (exists id bid p f, inp = IResolved id bid d /\ sget (m_flows m) id = Some f /\
+                            f_inc f = i /\ f_pending f = Some p /\ q = hdr ++ p))) /\
+    (forall i' d' q', In (Some i', SendToBackend d' q') (snd (step hash m now inp)) ->
+                      i' = i /\ d' = d /\ q' = q).
+Proof. exact forward_exact. Qed.
+
+(** the documented pre-resolution buffering: one slot, the newest datagram wins,
+    nothing is forwarded before the resolution; admission buffers the admitting datagram *)
+Theorem isolated_buffer_newest_wins :
+  forall hash m now src p id f, Inv m ->
+    (N.of_nat (length p) <= m_max_rx m)%N -> c_cluster (m_cluster m) <> [] -> p <> [] ->
+    tget (m_table m) (key_of src (c_with_port (m_cluster m))) = Some id ->
+    sget (m_flows m) id = Some f -> f_phase f = Awaiting ->
+    (exists f', sget (m_flows (fst (step hash m now (IClient src p)))) id = Some f' /\
+                f_pending f' = Some p /\ f_phase f' = Awaiting /\ f_inc f' = f_inc f) /\
+    (forall x, In x (snd (step hash m now (IClient src p))) -> exists dd, x = (None, ArmTimer dd)).
+Proof. exact buffer_newest_wins. Qed.
+
+Theorem isolated_admission_buffers_the_datagram :
+  forall hash m now src p, Inv m ->
+    (N.of_nat (length p) <= m_max_rx m)%N -> c_cluster (m_cluster m) <> [] -> p <> [] ->
+    tget (m_table m) (key_of src (c_with_port (m_cluster m))) = None ->
+    m_draining m = false -> (N.of_nat (slen (m_flows m)) < m_max_flows m)%N ->
+    sget (m_flows (fst (step hash m now (IClient src p)))) (s_next (m_flows m))
+      = Some (admit_flow m src p now) /\
+    In (Some (m_ninc m), Metric MCreated) (snd (step hash m now (IClient src p))).
+Proof. exact admission_buffers. Qed.
+
+(** 5. [teardown_once]: after any history, every incarnation ever created is either
+    still live and was never closed, or is gone and was closed exactly once; nothing
+    that was not created is ever closed. *)
+Theorem teardown_once :
+  forall hash c max_flows max_rx h i,
+    let m := fst (run hash (mgr_new c max_flows max_rx) h) in
+    let tr := snd (run hash (mgr_new c max_flows max_rx) h) in
+    closes i (allouts tr) <= 1 /\
+    (closes i (allouts tr) = 1 <-> (i < m_ninc m)%N /\ ~ live_inc m i).
+Proof. intros. apply closes_le_one; [apply invariants | apply run_TI_init]. Qed.
+
 (* ------------------------------------------------------------------ *)
 (** Non-vacuity: a concrete history reaching two established flows, one of them
     at the cap, a shed third source, a reply, a timeout and a close_all. *)
@@ -118,4 +210,22 @@ Example teardown_nonvacuous :
   slen (m_flows (fst (step ex_hash m 101 ITimeout))) = 1 /\
   m_armed (fst (step ex_hash m 101 ITimeout)) = Some 104%N /\
   slen (m_flows (fst (step ex_hash m 7 ICloseAll))) = 0.
+Proof. vm_compute. repeat split. Qed.
+
+Example sticky_nonvacuous :
+  let tr := snd (run ex_hash (mgr_new ex_cfg 2 8) ex_hist) in
+  (* flow 0 forwards twice (first with the PROXY header), always to ex_b; the late
+     resolution towards ex_a3 is ignored *)
+  In (Some 0%N, SendToBackend ex_b (dgram_header ex_a1 ex_b ++ [1;2;3]%N)) (allouts tr) /\
+  In (Some 0%N, SendToBackend ex_b [6;7]%N) (allouts tr) /\
+  In (Some 0%N, OpenUpstream 0 ex_b) (allouts tr) /\
+  In (Some 0%N, SendToClient ex_a1 [8;9]%N) (allouts tr).
+Proof. vm_compute. repeat split; auto 30. Qed.
+
+Example teardown_once_nonvacuous :
+  let h := (ex_hist ++ [(101, ITimeout); (102, IClient ex_a2 [7]); (103, ICloseAll)])%N in
+  let m := fst (run ex_hash (mgr_new ex_cfg 2 8) h) in
+  let tr := snd (run ex_hash (mgr_new ex_cfg 2 8) h) in
+  m_ninc m = 3%N /\ closes 0 (allouts tr) = 1 /\ closes 1 (allouts tr) = 1 /\ closes 2 (allouts tr) = 1 /\
+  closes 3 (allouts tr) = 0.
 Proof. vm_compute. repeat split. Qed.
